@@ -72,4 +72,28 @@ CHECKS.update({
     },
 })
 
+CHECKS.update({
+    "C03": {
+        "level_text": "Visitor-coverage clauses: the yield-line visitor and the generator-status visitor (found by role) must "
+                      "descend into the same statement-list fields and into every statement-list field of the AST type universe "
+                      "(derived from rustpython_ast's definitions) except nested scopes. One disagreement was repaired (fix: "
+                      "commit), the remaining gaps (match / except*) are recorded known findings with replays. Field values of "
+                      "the extracted records are not decided.",
+        "design_ref": "DESIGN.md section 4 R6, section 5 C03",
+        "level_note": "Trusted: MIR field projections as evidence of descent; AST type universe from the type context. Undecided: "
+                      "names, scopes, dependency order, return-type text, docstrings, usage extraction from marks.",
+        "technique": "sibling-visitor agreement + exhaustiveness over the AST type universe (MIR field-projection sets)",
+    },
+    "C17": {
+        "level_text": "The body visitors of the undeclared-fixture scan must descend into every nested statement list and the "
+                      "local-variable collector must read every name-binding field of the language (table from the Python "
+                      "reference, resolved against the AST types); all gaps of the pinned tree are recorded known findings with "
+                      "replays. The quick-fix edit is a string-value property and is not decided.",
+        "design_ref": "DESIGN.md section 4 R6, section 5 C17",
+        "level_note": "Trusted: MIR field projections; binding-form table. Undecided: expression forms inside visited statements, "
+                      "positions, the quick-fix/parameter-insertion text edits.",
+        "technique": "exhaustiveness of visitor descent / binding-form coverage over the AST type universe",
+    },
+})
+
 NOT_APPLICABLE = {p: _UNDER_CONSTRUCTION for p in ["C%02d" % i for i in range(1, 21)]}
